@@ -271,6 +271,36 @@ func c15ASCIIVar(c *ctx, cs c15Case) {
 	} else {
 		c.Class("asciivar/fill-refused")
 	}
+	// the same variable inside a repeated group: the bounds go with every copy, also when the repeat count and the
+	// strings for the generated names arrive in ONE call
+	if grp, errsG, _, oG := smlParse("S2F3 W H<-E <L <L <A" + decl + " TEXT> <U1 1>> ...> ."); !oG.Panicked && len(errsG) == 0 && len(grp) == 1 {
+		el := ""
+		for _, v := range grp[0].Variables() {
+			if ref.IsEllipsisName(v) {
+				el = v
+			}
+		}
+		other := ""
+		if !huge && lo.Int64() >= 0 {
+			other = strings.Repeat("k", int(lo.Int64()%1000))
+		}
+		if !huge && el != "" && within(len(other), lo, hi) {
+			for _, oneCall := range []bool{true, false} {
+				of := real.Try(func() {
+					if oneCall {
+						grp[0].FillVariables(map[string]interface{}{el: 1, "TEXT[0]": other, "TEXT[1]": s})
+					} else {
+						grp[0].FillVariables(map[string]interface{}{el: 1}).FillVariables(map[string]interface{}{"TEXT[0]": other, "TEXT[1]": s})
+					}
+				})
+				c.Class("asciivar/fill-inside-a-repeated-group")
+				if accept == of.Panicked {
+					c.Violation("C15/fill-length-enforcement/repeated-group/"+sig, fmt.Sprintf("declared %s inside a repeated group, count and strings in one call=%v, fill length %d: %s (should be accepted=%v)", decl, oneCall, l, of, accept), cs)
+					return
+				}
+			}
+		}
+	}
 	// the template keeps its bounds whatever was filled (or refused) through it or through a message derived from it
 	sib := m.SetSessionIDAndSystemBytes(5, []byte{1, 2, 3, 4})
 	real.Try(func() { sib.FillVariables(map[string]interface{}{"TEXT": s}) })
@@ -622,7 +652,7 @@ func runC15(c *ctx) {
 	}
 	c15Direct(c)
 	c.parallel(c.pick(30000, 300000), func(i int, r *rng.R) { c15Several(c, i, r) })
-	c.Required = []string{"several-sized-items-in-one-message", "several-violated-declarations", "asciivar/template-re-read-after-fills", "literal/within", "literal/outside", "literal/form=n", "literal/form=a..b", "literal/form=a..", "literal/form=..b", "asciivar/fill-accepted", "asciivar/fill-refused", "asciivar/inverted-bounds", "direct-fill", "zero-padded-bounds", "same-name-other-bounds", "sized-items-with-variables-or-a-second-error"}
+	c.Required = []string{"several-sized-items-in-one-message", "several-violated-declarations", "asciivar/template-re-read-after-fills", "asciivar/fill-inside-a-repeated-group", "literal/within", "literal/outside", "literal/form=n", "literal/form=a..b", "literal/form=a..", "literal/form=..b", "asciivar/fill-accepted", "asciivar/fill-refused", "asciivar/inverted-bounds", "direct-fill", "zero-padded-bounds", "same-name-other-bounds", "sized-items-with-variables-or-a-second-error"}
 }
 
 func replayC15(c *ctx, raw json.RawMessage) {
